@@ -94,6 +94,13 @@ func (pass *DisjunctionToType) processDisjunction(visitor *Visitor, schema *ast.
 	// add it to preprocessor.types, and use it instead.
 	newTypeName := pass.disjunctionTypeName(disjunction)
 
+	// the name can be the one of an object that the schema already holds (`StringOrBool: {…}`
+	// next to `v: string | bool`): that object is not the union, and must not be replaced by it.
+	suggestedName := newTypeName
+	for suffix := 2; schema.HasObject(newTypeName) && !visitor.HasNewObject(ast.RefType{ReferredPkg: schema.Package, ReferredType: newTypeName}); suffix++ {
+		newTypeName = fmt.Sprintf("%s%d", suggestedName, suffix)
+	}
+
 	// if we already generated a new object for this disjunction, let's return
 	// a reference to it.
 	if visitor.HasNewObject(ast.RefType{ReferredPkg: schema.Package, ReferredType: newTypeName}) {
